@@ -157,7 +157,7 @@ class RefDC:
         if self.lib and env is not None:
             env = self._lib_pack_envelope(entry["envelope_fields"])
         entry["envelope"] = env
-        return ("response", rpce.ndr64_getkey_response(env, hr))
+        return ("response", rpce.ndr64_getkey_response(env, hr, gap_fill=int(self.byz.get("ndr_gap_fill", 0))))
 
     # ---- LibDC: dpapi_ng's own codecs in the server role ----------------------------
     @staticmethod
